@@ -1,0 +1,10 @@
+//go:build verif
+
+package sse
+
+// VerifRegistered reports len(Handler.requests), read under the handler's mutex (verification hook for C19).
+func (s *Handler) VerifRegistered() int {
+	s.m.Lock()
+	defer s.m.Unlock()
+	return len(s.requests)
+}
